@@ -331,9 +331,16 @@ func VerifC18ValidateStruct() {
 	byPtr := nd.Bool()
 	fld := meta.Fields[0]
 	h.C = v
+	nilPtr := false
 	if byPtr {
 		fld = meta.Fields[1]
 		h.P = &v
+		if nd.Bool() {
+			// an optional struct pointer whose value resolved to nothing: nothing was bound
+			h.P = nil
+			nilPtr = true
+			nd.Cover("validated struct pointer left nil")
+		}
 	}
 	hasValidate := nd.Bool()
 	tag := "x"
@@ -344,6 +351,10 @@ func VerifC18ValidateStruct() {
 	vd := NewValidateAwarePostProcessors()
 	_, err := vd.PostProcessProperties([]*component_definition.Property{prop}, h, "h")
 	verdict := validator.New(validator.WithRequiredStructEnabled()).Struct(v)
+	if nilPtr {
+		nd.Assert(err == nil, "C18: a field to which nothing was bound violates no constraint (start-up never fails otherwise)")
+		return
+	}
 	if !hasValidate {
 		nd.Assert(err == nil, "C18: a field without a validate argument never fails validation")
 		return
